@@ -8,7 +8,7 @@ Correspondence: (a) get_sam_profile_data  vs  Norm.profile_of (Norm.pileup reads
                 (c) rejection outcomes  vs  Norm.normalize
 Predicate (on the implementation's numbers only): k-fold duplication invariance, gene-only multiplication linearity,
 self-profile == exactly 2.0 (and 0.0 where the profile has no depth), empty neutral region rejected."""
-import json, os, tempfile
+import json, os, random, tempfile
 from fractions import Fraction as F
 import common, gendb
 from common import cz, cq, cstr, clist, cpair
@@ -334,6 +334,58 @@ def evaluate(chk, cases):
                 chk.mismatch("rejection", case, m[:1], want)
 
 
+def builtin_history(chk, case=None):
+    """Profile.load of a SHIPPED profile by name (the route `aldy genotype -p illumina [-n region]` takes), as a history inside one
+    process: default neutral region, custom regions, default again.  Every load must give the neutral value / region the YAML file and
+    the arguments of THAT call determine (sam.py normalises with them): a custom region of an earlier call must not leak into a later
+    one.  The default-profile normalisation of the shipped CYP2D6 sample is compared before and after the custom loads."""
+    import yaml
+    from aldy.gene import Gene
+    from aldy.profile import Profile
+    from aldy.common import GRange, script_path
+    rng = random.Random(case["seed"]) if case else None
+    if case is None:
+        sd = chk.rng.randrange(1 << 30)
+        rng = random.Random(sd)
+        case = {"kind": "builtin-history", "seed": sd}
+    for pname in ("illumina", "pgx1"):
+        raw = yaml.safe_load(open(script_path(f"aldy.resources.profiles/{pname}.yml")))
+        for genome in ("hg19", "hg38"):
+            g = Gene(script_path("aldy.resources.genes/cyp2d6.yml"), genome=genome)
+            dflt = raw["neutral"][genome]
+            steps = [None]
+            for _ in range(3):
+                a = dflt[1] + rng.randint(-2000, 2000)
+                steps += [[dflt[0], a, a + rng.choice([300, 786, 1500, 4000])], None]
+            baseline_cov = None
+            bam = os.path.join(common.REPO, "aldy", "tests", "resources", "NA10860.bam")
+            for k, st in enumerate(steps):
+                desc = {"stream": "builtin-history", "profile": pname, "genome": genome, "step": k, "custom": st is not None}
+                try:
+                    p = Profile.load(g, pname, GRange(*st) if st else None)
+                except Exception as e:    # pgx profiles refuse a custom region: that is their documented behaviour
+                    chk.count("builtin-history", "load-refused:" + type(e).__name__)
+                    continue
+                want_region = tuple(st) if st else tuple(dflt)
+                want_value = (st[2] - st[1]) if (st and pname == "illumina") else raw["neutral"]["value"]
+                got = (float(p.neutral_value), (p.cn_region.chr, p.cn_region.start, p.cn_region.end))
+                chk.count("builtin-history", "loads")
+                chk.case("builtin-history", [pname, genome, k, st], nontrivial=True, sample={"step": k, "custom": st, "observed": got})
+                if got != (float(want_value), want_region):
+                    chk.fail("history-independent", desc, dict(case, steps=steps, profile=pname, genome=genome),
+                             {"neutral_value": want_value, "cn_region": want_region}, {"neutral_value": got[0], "cn_region": got[1]})
+                if st is None and pname == "illumina" and genome == "hg19" and os.path.exists(bam) and k in (0, len(steps) - 1):
+                    r = load_sample(g, p, bam)
+                    cov = {str(x): y for x, y in r[1].items()} if r[0] == "ok" else r[:2]
+                    if baseline_cov is None:
+                        baseline_cov = cov
+                    elif cov != baseline_cov:
+                        chk.fail("history-independent", dict(desc, what="normalised depths of NA10860"), dict(case, steps=steps),
+                                 "the same normalised region depths as before the custom-region loads",
+                                 {"before": dict(list(baseline_cov.items())[:4]) if isinstance(baseline_cov, dict) else baseline_cov,
+                                  "after": dict(list(cov.items())[:4]) if isinstance(cov, dict) else cov})
+
+
 def run(chk):
     chk.rule = ("one case = one generated gene database (gendb: 300-500 bp gene, with/without pseudogene, strands ++ +- -+ --, build hg19/hg38), "
                 "the generator's or a random custom neutral region, a tiled read set (depth >= 4) plus random reads with I/D/S/= operations and "
@@ -350,13 +402,17 @@ def run(chk):
     if os.path.exists(corpus):
         cases += json.load(open(corpus))
     cases += [gen_case(chk.rng) for _ in range(n)]
+    builtin_history(chk)
     evaluate(chk, cases)
 
 
 def replay(chk, path):
     r = json.load(open(path))
     chk.build()
-    evaluate(chk, [r["case"]])
+    if r["case"].get("kind") == "builtin-history":
+        builtin_history(chk, r["case"])
+    else:
+        evaluate(chk, [r["case"]])
     for f in chk.failures:
         print("still failing:", f["clause"], json.dumps(f["observed"], default=str)[:400], "expected", json.dumps(f["expected"], default=str)[:400])
     print("REPLAY", "FAILS" if chk.failures else "passes")
